@@ -24,7 +24,10 @@ import (
 	cid "github.com/ipfs/go-cid"
 	ds "github.com/ipfs/go-datastore"
 	query "github.com/ipfs/go-datastore/query"
+	host "github.com/libp2p/go-libp2p-core/host"
 	peer "github.com/libp2p/go-libp2p-core/peer"
+	dual "github.com/libp2p/go-libp2p-kad-dht/dual"
+	pubsub "github.com/libp2p/go-libp2p-pubsub"
 	rpc "github.com/libp2p/go-libp2p-gorpc"
 	multiaddr "github.com/multiformats/go-multiaddr"
 )
@@ -420,11 +423,16 @@ var vc02PeerSeq int
 var vc02PeerSeqMu sync.Mutex
 
 func newVC02Peer(t *testing.T, size int, age time.Duration, qcap int, failAt []int, trustAll bool, trusted []peer.ID) *vc02Peer {
+	h, psub, dht := makeTestingHost(t)
+	return newVC02PeerOn(t, h, psub, dht, size, age, qcap, failAt, trustAll, trusted, "", 0)
+}
+
+func newVC02PeerOn(t *testing.T, h host.Host, psub *pubsub.PubSub, dht *dual.DHT, size int, age time.Duration, qcap int, failAt []int,
+	trustAll bool, trusted []peer.ID, clusterName string, rebroadcast time.Duration) *vc02Peer {
 	vc02PeerSeqMu.Lock()
 	vc02PeerSeq++
 	idn := vc02PeerSeq
 	vc02PeerSeqMu.Unlock()
-	h, psub, dht := makeTestingHost(t)
 	cfg := &Config{}
 	cfg.Default()
 	cfg.DatastoreNamespace = fmt.Sprintf("vc02-%d", idn)
@@ -434,6 +442,12 @@ func newVC02Peer(t *testing.T, size int, age time.Duration, qcap int, failAt []i
 	cfg.Batching.MaxQueueSize = qcap
 	cfg.TrustAll = trustAll
 	cfg.TrustedPeers = trusted
+	if clusterName != "" {
+		cfg.ClusterName = clusterName
+	}
+	if rebroadcast > 0 {
+		cfg.RebroadcastInterval = rebroadcast
+	}
 	p := &vc02Peer{tr: &vc02Tracker{}}
 	p.fds = newVC02FaultDS(cfg.DatastoreNamespace, failAt)
 	cc, err := New(h, dht, psub, cfg, p.fds)
